@@ -158,7 +158,7 @@ class C07(c01.C01):
 
   def generate(self, rng, tier):
     g = Gen07(rng)
-    n = 450 if tier == 'quick' else 4000
+    n = 450 if tier == 'quick' else 7000
     for _ in range(n):
       yield g.history()
 
